@@ -83,6 +83,7 @@ type object struct {
 	lst    sonic.Listener
 	pkt    sonic.PacketConn
 	mcp    *multicast.UDPPeer
+	nc     net.Conn // adp: the wrapped connection (kept alive)
 	fd     int // RawFd of the sonic object
 	peer   int // raw peer descriptor (-1 if none / closed)
 	port   int // bound port (lst, pkt)
@@ -206,6 +207,43 @@ func (d *drv) mk(kind string, idx int) (*object, error) {
 		// default buffer sizes: tiny buffers against the 64 KiB loopback MSS make
 		// window updates depend on TCP timers
 		o.fd = c.RawFd()
+	case "adp":
+		// net.Conn wrapped by sonic.NewAsyncAdapter
+		ln, err := net.Listen("tcp", "127.0.0.1:0")
+		if err != nil {
+			return nil, err
+		}
+		defer ln.Close()
+		nc, err := net.Dial("tcp", ln.Addr().String())
+		if err != nil {
+			return nil, err
+		}
+		pc, err := ln.Accept()
+		if err != nil {
+			return nil, err
+		}
+		f, err := pc.(*net.TCPConn).File()
+		pc.Close()
+		if err != nil {
+			return nil, err
+		}
+		fd, err := syscall.Dup(int(f.Fd()))
+		f.Close()
+		if err != nil {
+			return nil, err
+		}
+		_ = syscall.SetNonblock(fd, true)
+		_ = syscall.SetsockoptInt(fd, syscall.IPPROTO_TCP, syscall.TCP_NODELAY, 1)
+		var ad *sonic.AsyncAdapter
+		var aerr error
+		sonic.NewAsyncAdapter(d.ioc, nc.(*net.TCPConn), nc, func(err error, a *sonic.AsyncAdapter) {
+			ad, aerr = a, err
+		}, sonicopts.NoDelay(true))
+		if aerr != nil || ad == nil {
+			return nil, fmt.Errorf("adapter: %v", aerr)
+		}
+		o.file, o.peer, o.fd = ad, fd, ad.RawFd()
+		o.nc = nc
 	case "pipeR", "pipeW":
 		o.path = filepath.Join(d.dir, fmt.Sprintf("fifo-%d-%d-%d", os.Getpid(), d.sid, idx))
 		_ = os.Remove(o.path)
@@ -422,6 +460,7 @@ func (d *drv) exec(c Ev) {
 			err = ob.mcp.Close()
 		}
 		ob.closed = true
+		d.reserve(ob)
 		cls, note := errClass(err)
 		d.emit(Ev{Ev: "CloseE", O: c.O, Err: cls, Note: note})
 	case "PostE":
@@ -493,6 +532,22 @@ func (d *drv) exec(c Ev) {
 	}
 }
 
+// reserve keeps the descriptor number of a closed adapter occupied (by
+// /dev/null): AsyncAdapter.Close closes the descriptor that the wrapped
+// net.Conn still believes it owns; when that net.Conn is closed (or finalized)
+// it must not hit a number that was handed to somebody else in the meantime.
+func (d *drv) reserve(ob *object) {
+	if ob.kind != "adp" || ob.nc == nil {
+		return
+	}
+	if nul, err := syscall.Open("/dev/null", syscall.O_RDWR, 0); err == nil {
+		if nul != ob.fd {
+			_ = unix.Dup2(nul, ob.fd)
+			syscall.Close(nul)
+		}
+	}
+}
+
 func (d *drv) sinkPort() int {
 	if d.sink < 0 {
 		s, err := syscall.Socket(syscall.AF_INET, syscall.SOCK_DGRAM|syscall.SOCK_NONBLOCK, 0)
@@ -530,7 +585,7 @@ func (d *drv) env(what string, oi int, n int) {
 	switch what {
 	case "send":
 		switch ob.kind {
-		case "sock", "pipeR", "reg":
+		case "sock", "adp", "pipeR", "reg":
 			if ob.peer >= 0 {
 				ob.tok++
 				if _, err := syscall.Write(ob.peer, []byte{ob.tok}); err != nil {
@@ -720,7 +775,7 @@ func (d *drv) drain() {
 				d.env("send", k+1, 1)
 				d.sample()
 			}
-			if ob.inW != 0 && ob.peer >= 0 && (ob.kind == "sock" || ob.kind == "pipeW") {
+			if ob.inW != 0 && ob.peer >= 0 && (ob.kind == "sock" || ob.kind == "adp" || ob.kind == "pipeW") {
 				d.env("drainw", k+1, 1)
 				d.sample()
 			}
@@ -759,6 +814,10 @@ func (d *drv) cleanup() {
 			case ob.mcp != nil:
 				_ = ob.mcp.Close()
 			}
+			d.reserve(ob)
+		}
+		if ob.nc != nil {
+			_ = ob.nc.Close()
 		}
 		if ob.peer >= 0 {
 			syscall.Close(ob.peer)
@@ -841,7 +900,7 @@ func (d *drv) runPending() {
 			d.env("send", k+1, 1)
 			d.sample()
 		}
-		if ob.inW != 0 && ob.peer >= 0 && (ob.kind == "sock" || ob.kind == "pipeW") {
+		if ob.inW != 0 && ob.peer >= 0 && (ob.kind == "sock" || ob.kind == "adp" || ob.kind == "pipeW") {
 			d.env("drainw", k+1, 1)
 			d.sample()
 		}
